@@ -183,7 +183,7 @@ def run_generated(text, fn_name, kwargs, stub_choice=True, same_namespace=False,
     the experiment function with keyword arguments `kwargs` (pysym values)."""
     def setup(it):
         if stub_choice:
-            it.call_overrides["deterministic_choice"] = choice_stub
+            it.call_overrides["pyab_experiment.binning.binning:deterministic_choice"] = choice_stub
     o = {"float_mode": "real", "prune": True}
     o.update(opts or {})
     return api.run(api.exec_text_and_call(text, fn_name, kwargs=kwargs, globals_module=EVAL_MODULE,
